@@ -163,7 +163,11 @@ func (s *State) ghostInt(name string) *Term {
 	if t, ok := s.ghost[name]; ok {
 		return t
 	}
-	t := Var(fmt.Sprintf("%s@%d", smtName(name), s.epoch), SInt)
+	vn := fmt.Sprintf("%s@%d", smtName(name), s.epoch)
+	if b := s.bump["#spawnver"]; b > 0 && len(name) >= 6 && name[:6] == "#spawn" {
+		vn = fmt.Sprintf("%s_%d", vn, b)
+	}
+	t := Var(vn, SInt)
 	s.ghost[name] = t
 	return t
 }
